@@ -371,7 +371,8 @@ def c13(k, ctx):
             ctx.nontrivial_keys.add(k.key(r["cfg"]))
     ctx.extra["runs_by_fault"] = {f: sum(1 for r in recs if r["cfg"]["fault"] == f) for f in ("none", "puncturer_misfit", "interleaver_misfit", "psk8_misfit", "decoder_panic")}
     ctx.extra["results"] = {f: sum(1 for r in recs if r["result"] == f) for f in ("ok", "error", "panic", "hang", "abort")}
-    ctx.extra["worker_counts"] = sorted({r["cfg"]["W"] for r in recs})
+    ctx.extra["worker_counts_requested"] = sorted({r["cfg"]["W"] for r in recs})
+    ctx.extra["worker_counts_observed"] = sorted({r["built"] // r["cfg"]["epochs"] for r in recs if r["built"]})
     ctx.extra["frames_consumed"] = sum(s["frames"] for r in recs for s in r["stats"])
     def short(r):
         return {"cfg": r["cfg"], "result": r["result"], "stats": r["stats"], "reports": len(r["reports"]), "workers": [len(w) for w in r["workers"]]}
